@@ -235,3 +235,132 @@ def memo_findings(P: Program, prefixes: Tuple[str, ...] = ("vtlengine",)) -> Lis
         if why is not None:
             out.append((f, why, line))
     return out
+
+
+# ---------------------------------------------------------------------------------------------------------------
+# long-lived instances of stateful in-repo classes (a visitor kept at module or class level is process-global state)
+def stateful_attrs(P: Program, cq: str) -> Dict[str, Tuple[str, int]]:
+    """instance attributes of class `cq` (incl. in-repo bases) that some method OTHER than __init__/__post_init__ rebinds or
+    mutates in place: attr -> (method qualname, line)"""
+    out: Dict[str, Tuple[str, int]] = {}
+    ci = P.classes.get(cq)
+    if ci is None:
+        return out
+    for c in P.mro(ci):
+        for name, f in c.methods.items():
+            if name in ("__init__", "__post_init__", "__new__"):
+                continue
+            for n in walk_no_nested(f.node):
+                tg: List[ast.AST] = []
+                if isinstance(n, ast.Assign):
+                    tg = list(n.targets)
+                elif isinstance(n, (ast.AugAssign, ast.AnnAssign)):
+                    tg = [n.target]
+                for t in tg:
+                    for tt in (t.elts if isinstance(t, (ast.Tuple, ast.List)) else [t]):
+                        base = tt.value if isinstance(tt, ast.Subscript) else tt
+                        if isinstance(base, ast.Attribute) and isinstance(base.value, ast.Name) and base.value.id == "self":
+                            out.setdefault(base.attr, (f.qualname, n.lineno))
+                if isinstance(n, ast.Call) and isinstance(n.func, ast.Attribute) and n.func.attr in MUTATORS:
+                    b = n.func.value
+                    if isinstance(b, ast.Attribute) and isinstance(b.value, ast.Name) and b.value.id == "self":
+                        out.setdefault(b.attr, (f.qualname, n.lineno))
+    return out
+
+
+@dataclass
+class SharedInstance:
+    qualname: str  # module.NAME or module.Class.attr
+    cls: str
+    file: str
+    line: int
+    attrs: Dict[str, Tuple[str, int]]
+    users: Dict[str, List[int]] = field(default_factory=dict)
+
+
+def shared_instances(P: Program) -> List[SharedInstance]:
+    """module-level / class-level names bound (at import time) to an instance of an in-repo class that keeps state between
+    method calls.  Names REBOUND from inside functions (`global X; X = C()`, `cls.attr = C()`) are the inventory's business
+    (they have a writer function) and are not repeated here."""
+    found: List[SharedInstance] = []
+
+    def consider(q: str, value: ast.AST, m, line: int) -> None:
+        if not isinstance(value, ast.Call):
+            return
+        cq = P.resolve_expr(m, value.func)
+        if cq not in P.classes:
+            return
+        attrs = stateful_attrs(P, cq)
+        if attrs:
+            found.append(SharedInstance(q, cq, m.rel, line, attrs))
+    for m in P.modules.values():
+        for st in m.tree.body:
+            if isinstance(st, (ast.Assign, ast.AnnAssign)) and getattr(st, "value", None) is not None:
+                for t in (st.targets if isinstance(st, ast.Assign) else [st.target]):
+                    if isinstance(t, ast.Name):
+                        consider(f"{m.name}.{t.id}", st.value, m, st.lineno)
+    for c in P.classes.values():
+        for st in c.node.body:
+            if isinstance(st, (ast.Assign, ast.AnnAssign)) and getattr(st, "value", None) is not None:
+                for t in (st.targets if isinstance(st, ast.Assign) else [st.target]):
+                    if isinstance(t, ast.Name):
+                        consider(f"{c.qualname}.{t.id}", st.value, c.module, st.lineno)
+    # users: functions that load the name
+    for si in found:
+        head, last = si.qualname.rsplit(".", 1)
+        for f in P.iter_functions():
+            for n in walk_no_nested(f.node):
+                if isinstance(n, ast.Name) and isinstance(n.ctx, ast.Load) and n.id == last and not _is_local(f, last) \
+                        and (f.module.name == head or f.module.imports.get(last) == si.qualname):
+                    si.users.setdefault(f.qualname, []).append(n.lineno)
+    return found
+
+
+def report_shared_instances(P: Program, rep, rule: str, only_subclasses_of: Optional[str] = None, what: str = "") -> int:
+    """shared rule: no instance of a stateful in-repo class lives longer than one API call (expected count on a sound tree: 0;
+    the positive example is the seeded change that hoists a renderer to module level, run by the thorough self-test)"""
+    from sa.core import Finding
+    n = 0
+    for si in shared_instances(P):
+        if only_subclasses_of is not None and not (si.cls == only_subclasses_of or P.is_subclass(si.cls, only_subclasses_of)):
+            continue
+        n += 1
+        a0 = sorted(si.attrs)[:4]
+        m0, l0 = si.attrs[a0[0]]
+        rep.add(Finding(rule, f"{rule}/shared-instance/{si.qualname}", si.file, si.line, si.qualname,
+                        f"`{si.qualname}` keeps ONE {si.cls.split('.')[-1]} for the whole process, but the class carries per-call state ({', '.join(a0)}; e.g. written by "
+                        f"{m0.split('.')[-1]}:{l0}) that is only reset on the normal path: after a call that raised mid-way, or while another thread is inside it, "
+                        f"{what or 'the next call starts from that state'} (used by {sorted(si.users)[:3]})"))
+    return n
+
+
+def module_level_objects(P: Program, module_prefixes: Tuple[str, ...]) -> List[Tuple[str, str, str, int, List[str]]]:
+    """(qualified name, class, file, line, user functions) of every module-level / class-level name in the given modules bound
+    at import time to an instance of an in-repo class that is mutable (not an Enum member, not an exception, not a frozen
+    dataclass): one object shared by every call that returns or embeds it"""
+    out: List[Tuple[str, str, str, int, List[str]]] = []
+
+    def mutable(cq: str) -> bool:
+        ci = P.classes[cq]
+        bases = P.all_bases(ci)
+        if any(b.split(".")[-1] in ("Enum", "IntEnum", "StrEnum", "Exception", "BaseException", "NamedTuple") for b in bases):
+            return False
+        for d in ci.node.decorator_list:
+            if isinstance(d, ast.Call) and (dotted(d.func) or "").endswith("dataclass") and any(k.arg == "frozen" and isinstance(k.value, ast.Constant) and k.value.value is True for k in d.keywords):
+                return False
+        return True
+    for m in P.modules.values():
+        if not m.name.startswith(module_prefixes):
+            continue
+        holders: List[Tuple[str, List[ast.stmt]]] = [(m.name, m.tree.body)] + [(c.qualname, c.node.body) for c in P.classes.values() if c.module is m]
+        for owner, body in holders:
+            for st in body:
+                if isinstance(st, (ast.Assign, ast.AnnAssign)) and isinstance(getattr(st, "value", None), ast.Call):
+                    cq = P.resolve_expr(m, st.value.func)
+                    if cq in P.classes and mutable(cq):
+                        for t in (st.targets if isinstance(st, ast.Assign) else [st.target]):
+                            if isinstance(t, ast.Name):
+                                users = sorted({f.qualname for f in P.iter_functions() if f.module is m or f.module.imports.get(t.id) == f"{m.name}.{t.id}"
+                                                for n in walk_no_nested(f.node) if isinstance(n, ast.Name) and n.id == t.id and isinstance(n.ctx, ast.Load) and not _is_local(f, t.id)})
+                                out.append((f"{owner}.{t.id}", cq, m.rel, st.lineno, users))
+    return out
